@@ -2,7 +2,7 @@
 HOOK_COMMITS = ['079ba0d', ]
 ENGINES = [
     {'name': 'store', 'path': 'coq/Model/{Bytes,Varint,Crc,Store,Coll,Wire}.v + coq/Extract + harness/store.go + lib/store.py',
-     'serves_properties': ['C01', 'C02', 'C09', 'C16'],
+     'serves_properties': ['C01', 'C02', 'C07', 'C09', 'C16'],
      'kind_free_text': 'Coq theorems over an executable tile model of the span file; the extracted model and the Go implementation run the same histories and are compared step by step; independent Python oracles state the property on the implementation outputs'},
 ]
 NOTES = 'See DESIGN.md. Every check rebuilds translator, Coq development, extracted oracle and Go harness from the current /repo working tree.'
@@ -18,6 +18,9 @@ CLAIMS = {
     'C02': {'engine': 'store', 'technique': T_STORE,
             'text': 'Theorems C02_scan/C02_reopen/C02_contents/C02_histories (axiom-free): scanning the image of any state reachable by clean operation returns exactly its tiles, so opening the file again (writable or read-only) yields the same index, free map and records, and histories with reopen inserted anywhere behave like the specification in which reopen is the identity. The override of passed options by the stored options record goes through encoding/json and is checked on the implementation (GetOptions after every reopen with conflicting options), not proved.',
             'note': STORE_NOTE},
+    'C07': {'engine': 'store', 'technique': 'Coq proof (crash images = prefixes of the storage steps of the model; scan + recovery re-establish the invariant) + differential correspondence incl. snapshots taken by the verifStep hook',
+            'text': 'Theorems C07_write/C07_remove/C07_add/C07_remove_doc/C07_continuation (axiom-free): WriteRecord is modelled as a list of storage steps (growth, span write, free-marking); the image after every prefix opens, recovery (free superseded duplicates, stamp a zero tail) re-establishes the full storage invariant (no record id active twice), and the contents are exactly the pre- or the post-operation contents; every continuation then follows the finite-map specification (C01/C02), so no older version can reappear. On the implementation the verifStep hook snapshots the mapped file after each storage step; each snapshot is reopened, compared with the model and continued (remove the affected id, reopen, read).',
+            'note': STORE_NOTE + ' Crash granularity is one storage call, as the property states.'},
     'C09': {'engine': 'store', 'technique': T_STORE,
             'text': 'Theorems C09_chain/C09_growth/C09_grows_only_when_nothing_fits/C09_remove_in_place (axiom-free): after every history the file is the concatenation of well-formed active spans (valid CRC, < 15 bytes padding) and FREE spans, one active span per live record, walkable by the scan; a write grows the file only if no contiguous run of free tiles can hold the record. An independent Python walker checks the same grammar, the equality free map = FREE spans + tail, and the growth rule on the real file image after every operation.',
             'note': STORE_NOTE},
